@@ -361,6 +361,20 @@ func c06b(c *Ctx, a *absVariant) {
 		})
 	}
 	r.Check(okS1 && okS2, "C06-b2", "T.setMemoized:stores-under-savepoint-offset-and-node", vn, v.Where(sm.Pos()), "p.memo[pt.offset][node] = tuple", fmt.Sprintf("offset-key=%t store=%t", okS1, okS2))
+	// every expression evaluation passes the memo: parseExpr has parseExprWrap as its only caller
+	var pc []string
+	for _, f := range v.Funcs() {
+		if f.Body == nil {
+			continue
+		}
+		for _, ce := range callsIn(f.Body) {
+			if callSel(ce) == "parseExpr" && f.Name.Name != "parseExprWrap" {
+				pc = append(pc, f.Name.Name+" ("+v.Where(ce.Pos())+")")
+			}
+		}
+	}
+	sort.Strings(pc)
+	r.Check(len(pc) == 0, "C06-b2", "T.parseExpr:only-called-through-the-memo-wrapper", vn, "builder/static_code.go", "parseExprWrap is the only caller", "parseExpr is called directly from "+strings.Join(pc, ", ")+": those evaluations are neither looked up nor stored, so with Memoize(true) an (expression, offset) pair can be evaluated many times")
 	var ws []string
 	for _, w := range fieldWrites(v) {
 		if w.Owner == "parser" && w.Field == "memo" && w.Func != "setMemoized" {
